@@ -19,6 +19,7 @@ package hedgepolicy
 // W: one attempt. Runs the inner function once; sends at most one message, only after winning the CAS on resultSent,
 // and the message is the attempt's own result, either matching the cancel conditions or the last one to arrive.
 //@ func (*executor).Apply$1$1
+//@   requires [C14.confinement.attempts_share_inner] reentrant(innerFn)
 //@   requires e != nil && e.hedgePolicy != nil && e.config != nil && e.BaseAbortablePolicy != nil && innerFn != nil && hedgeExec != nil && resultChan != nil
 //@   requires forall j int :: 0 <= j && j < len(e.abortConditions) ==> e.abortConditions[j] != nil
 //@   requires 0 <= execIdx && execIdx <= e.maxHedges && e.maxHedges <= 1073741824 && atomval_int(resultCount) >= 0 && atomval_int(resultCount) <= 1073741824
@@ -36,7 +37,10 @@ package hedgepolicy
 //@   modifies resultCount.v, resultSent.v, calls(innerFn), tokens(resultChan)
 
 // M: the caller's loop.
+// C14 (confinement): the attempts run innerFn concurrently, so innerFn must tolerate concurrent calls; the executors
+// of policies that keep per-execution state without a lock (retry) do not: see lemmaHedgeOverRetry in retrypolicy.
 //@ func (*executor).Apply$1
+//@   requires [C14.confinement.attempts_share_inner] reentrant(innerFn)
 //@   requires e != nil && e.hedgePolicy != nil && e.config != nil && e.BaseAbortablePolicy != nil && e.delayFunc != nil && innerFn != nil && typeis(exec, *failsafe.execution)
 //@   requires 0 <= e.maxHedges && e.maxHedges <= 1073741824
 //@   recvinv msg != nil && msg.result != nil && 0 <= msg.index && msg.index <= e.maxHedges
